@@ -854,6 +854,9 @@ impl LinkRelay<OutputHandle> {
         &mut self,
         detach: Detach,
     ) -> Result<(), mpsc::error::SendError<LinkFrame>> {
+        // No disposition can arrive on this attachment any more, and a link endpoint that waits for
+        // the outcome of a delivery does not look at its queue: release the waiters first
+        self.abandon_pending_deliveries();
         match self {
             LinkRelay::Sender { tx, .. } => {
                 tx.send(LinkFrame::Detach(detach)).await?;
